@@ -397,6 +397,7 @@ class SessionRec:
         self.scalars = scalars
         self.tid = tid
         self.failed = None
+        self.last_exc = None
         self.tree = None
         from PyXAB.partition.Partition import Partition
 
@@ -421,6 +422,7 @@ class SessionRec:
             ev["exc"] = type(e).__name__
             ev["msg"] = str(e)[:120]
             self.failed = type(e).__name__
+            self.last_exc = e
         finally:
             signal.alarm(0)
             signal.signal(signal.SIGALRM, old)
@@ -544,6 +546,7 @@ class SessionRec:
                 "relw": relw,
                 "cdev": cdev,
                 "wdev": wdev,
+                "hw2": fx(max((box[0][0] - cpt[0]) ** 2, (box[0][1] - cpt[0]) ** 2), 8192) if okb and okc else -1,
             }
 
         out = []
